@@ -47,6 +47,23 @@ fn main() {
         }
     }
     writeln!(s, "];").unwrap();
+    // third pool: events with an explicit parent taken from `xparent()` (a thread-local the
+    // harness sets before calling `emit`)
+    writeln!(s, "pub static POOL_XE: &[Cs] = &[").unwrap();
+    for (li, l) in levels.iter().enumerate() {
+        for (ti, t) in targets.iter().enumerate() {
+            for _c in 0..xp_copies {
+                writeln!(
+                    s,
+                    "Cs {{ idx: {idx}, level: {lv}, target: {ti}, kind: Kind::Event, emit: |id: u64| {{ tracing::event!(target: \"{t}\", parent: crate::xparent(), tracing::Level::{l}, id); Emitted::Event }} }},",
+                    lv = li + 1
+                )
+                .unwrap();
+                idx += 1;
+            }
+        }
+    }
+    writeln!(s, "];").unwrap();
     let out = std::path::PathBuf::from(std::env::var("OUT_DIR").unwrap()).join("pool.rs");
     std::fs::write(out, s).unwrap();
     println!("cargo:rerun-if-changed=build.rs");
